@@ -485,7 +485,12 @@ def run_impl(case):
     env()
     out = {}
     extra = {}
-    obj, members = build_obj(case, extra)
+    try:
+        obj, members = build_obj(case, extra)
+    except Exception as ex:
+        # the object cannot be built (e.g. r1 + r2 with conversions that cancel: the lumped stoichiometry is divided by
+        # X1 + X2 = 0): the model must reject it with the same class of error
+        return {'ctor_err': errname(ex), 'ctor_cls': type(ex).__name__}
     dhs = []
     for m in members:
         try:
@@ -587,6 +592,8 @@ CHEM = (f'(mkchem {qlist(HF)} {qlist(MW)} {qlist(HVAP)} {qlist(HFUS)} {clist([PH
 
 def coq_case(case, out):
     P = max(1, len(case['phases']))
+    if out.get('ctor_err'):
+        return f'(match {cobj_after(case)} with Err e_ => err_eqb e_ {out["ctor_err"]} | Ok _ => false end)'
     exp = []
     for e, v in out['dH']:
         if e is None and len(v) != 1:
@@ -648,10 +655,12 @@ def coq_show(case, out):
             f'(mkS {qlist(case["flows"])} {q(case["T"])}) {q(case["Q"])}) | Err e => ([], (Some e, mkS [] 0)) end)')
 
 def nontrivial(case, out):
+    if out.get('ctor_err'): return True
     if any(e is not None or any(F(x) != 0 for x in v) for e, v in out['dH']): return True
     return bool(out.get('err')) or out.get('mol') != [fr_json(F(x)) for x in case['flows']]
 
 def classify(case, out):
+    if out.get('ctor_err'): return ['kind:' + case['kind'], 'ctor_error:' + out.get('ctor_cls', '?')]
     ks = ['kind:' + case['kind'], 'phases:' + (''.join(case['phases']) or 'none'), 'op:' + case['op'],
           'basis:' + (case['rxns'][0]['rebase'] or case['rxns'][0]['basis']), 'T:%g' % case['T']]
     for r in case['rxns']:
@@ -711,7 +720,13 @@ def approx(a, b, scale=1.0, tol=1e-9):
 
 def oracle(case):
     e = env(); tmo = e['tmo']
-    obj, members = build_obj(case)
+    try:
+        obj, members = build_obj(case)
+    except Exception as ex:
+        cancels = any(r_.get('plus') and r_['X'] + r_['plus']['X'] == 0 for r_ in case['rxns'])
+        if cancels and type(ex).__name__ in ('ZeroDivisionError', 'FloatingPointError'):
+            return None      # r1 + r2 with X1 + X2 = 0 has no per-reactant stoichiometry; the property is about reactions that exist
+        return f'construct: well-formed reaction rejected with {type(ex).__name__}: {ex}'
     ph = case['phases']; P = max(1, len(ph))
     # clause 1: reported heat of reaction
     dhs = []
